@@ -43,7 +43,7 @@ type synP struct {
 
 const synBT = time.Second
 
-var synHooks = []string{"sync.syncStore.Append.beforeStore", "sync.setLocalHead.beforePendingAdd", "store.flush.begin", "store.flush.afterPendingAppend", "store.flush.afterAdvanceHead"}
+var synHooks = []string{"sync.syncStore.Append.beforeStore", "sync.setLocalHead.beforePendingAdd", "sync.incomingNetworkHead.afterVerify", "store.flush.begin", "store.flush.afterPendingAppend", "store.flush.afterAdvanceHead"}
 
 var errGetter = errors.New("syn: getter fault")
 
@@ -55,8 +55,9 @@ type synObs struct {
 	errorSeen   bool // State().Error was non-empty at some quiescent point after a getter error
 	classes     []string
 	tainted     atomic.Bool
-	stepBase    int // index offset of the chunk being run
-	lastLearned int // global index of the last step in which a head above everything known was learned
+	stepBase    int  // index offset of the chunk being run
+	lastLearned int  // global index of the last step in which a head above everything known was learned
+	sequential  bool // no other delivery is in flight: the verdict of a stale header is decidable
 }
 
 type synWorld struct {
@@ -151,10 +152,18 @@ func (sw *synWorld) isTimewarp(h H) bool {
 func (sw *synWorld) runSteps(p synP, obs *synObs) {
 	c := sw.c
 	deliver := func(h H, kind string) {
+		sw.mmu.Lock()
+		knownBefore := obs.sequential && sw.chain.Canonical(h) && h.Height() <= obs.maxVerified
+		sw.mmu.Unlock()
 		ctx, cancel := context.WithTimeout(context.Background(), time.Minute)
 		err := sw.sub.deliver(ctx, h)
 		cancel()
 		c.Count("deliveries", 1)
+		if knownBefore && err == nil && !obs.tainted.Load() {
+			// a stale or duplicated header (at or below a head that was verified before this delivery started) fails
+			// verification: it has to be refused
+			c.Violation("known-header-accepted/kind="+kind, fmt.Sprintf("header %v was accepted although height %d had been verified before", h, obs.maxVerified), nil)
+		}
 		if err == nil && h.Time().After(time.Now().Add(header.VerifClockDrift())) {
 			c.Violation("future-header-accepted/kind="+kind, fmt.Sprintf("header %v is %v ahead of the local clock (drift allowance %v) but was accepted", h, time.Until(h.Time()), header.VerifClockDrift()), nil)
 		}
@@ -266,6 +275,7 @@ func (sw *synWorld) runSteps(p synP, obs *synObs) {
 				return
 			}
 		case "burst":
+			obs.sequential = false
 			tip := sw.tipNow()
 			if sw.ctl != nil {
 				sw.ctl.Pause() // concurrent deliveries contend on the Syncer's incoming mutex
@@ -287,6 +297,7 @@ func (sw *synWorld) runSteps(p synP, obs *synObs) {
 			if sw.ctl != nil {
 				sw.ctl.Resume()
 			}
+			obs.sequential = true
 			obs.classes = append(obs.classes, fmt.Sprintf("burst:%d:%s", st.N, st.Kind))
 		}
 		if obs.maxVerified > before {
@@ -366,7 +377,7 @@ func c03Run(c *mon.Case, p synP) {
 		if !sw.startSyncer(p) {
 			return
 		}
-		obs := &synObs{}
+		obs := &synObs{sequential: true}
 		sw.tolerateBad = func(h H) bool { return h != nil && sw.isTimewarp(h) }
 		sw.runSteps(p, obs)
 		sw.setMode("ok")
